@@ -122,6 +122,9 @@ async def run_flow(loop: VLoop, c):
                 if not lost:
                     lost = True
                     p.connection_lost(None)
+            elif e[0] == "tick":
+                loop.advance(e[1] / 8)
+                await asyncio.sleep(0)
         except Exception as ex:  # noqa: BLE001
             log["exc"].append(f"{type(ex).__name__}: {ex}"[:120])
         await _drain()
